@@ -1,14 +1,30 @@
 #!/bin/bash
-# usage: tools/seed_run.sh <seed name> <property> [tier]  -- applies the seeded patch to /repo, runs the check, undoes it
+# usage: tools/seed_run.sh <seed name> <property> [tier]
+# applies the seeded patch to /repo, runs the check, undoes it, and records the outcome in seeded/<name>/meta.json
 NAME="$1"; PROP="$2"; TIER="${3:-quick}"
 cd /verif
 git -C /repo diff --quiet || { echo "/repo is dirty"; exit 2; }
 git -C /repo apply /verif/seeded/$NAME/patch.diff || exit 2
 cp -a /verif/evidence /tmp/evidence-save-$$
+s=$(date +%s)
 ./check $PROP $TIER > /tmp/seedrun-$NAME-$PROP.log 2>&1; rc=$?
-git -C /repo checkout -- . 
-echo "seed $NAME vs check $PROP ($TIER): exit=$rc"
-grep "VIOLATION\|HARNESS-ERROR\|KNOWN-FINDING\|obligation:" /tmp/seedrun-$NAME-$PROP.log | cut -c1-260 | head -8
+e=$(date +%s)
+git -C /repo checkout -- .
+echo "seed $NAME vs check $PROP ($TIER): exit=$rc $((e-s))s"
+grep "VIOLATION\|HARNESS-ERROR\|obligation:" /tmp/seedrun-$NAME-$PROP.log | cut -c1-260 | head -6
 grep "tier=" /tmp/seedrun-$NAME-$PROP.log | cut -c1-200
+python3 - "$NAME" "$PROP" "$TIER" "$rc" "$((e-s))" <<'PY'
+import json, re, sys, subprocess
+name, prop, tier, rc, secs = sys.argv[1:6]
+p = f"/verif/seeded/{name}/meta.json"
+m = json.load(open(p))
+log = open(f"/tmp/seedrun-{name}-{prop}.log").read()
+keys = sorted(set(re.findall(r"\[key ([^\]]+)\]", log)))
+head = subprocess.run(["git", "-C", "/repo", "log", "--format=%h", "-1"], capture_output=True, text=True).stdout.strip()
+m.setdefault("detected_by", {})[f"{prop}:{tier}"] = {"exit": int(rc), "seconds": int(secs), "repo_head": head,
+                                                    "violated_obligation_keys": keys[:8],
+                                                    "command": f"git -C /repo apply seeded/{name}/patch.diff; ./check {prop} {tier}; git -C /repo checkout -- ."}
+json.dump(m, open(p, "w"), indent=1)
+PY
 rm -f /tmp/seedrun-$NAME-$PROP.log
 rm -rf /verif/evidence && mv /tmp/evidence-save-$$ /verif/evidence
